@@ -33,6 +33,8 @@ Record case := { c_cfg : cfg; c_viapk : bool; c_spar : list N; c_payload : N; c_
                     both are recorded but do not enter the prediction — the implementation must agree in every
                     form and after every history *)
                  c_form : N; c_history : bool;
+                 (* key types of the keys involved when they are not all of the configuration's type (else []) *)
+                 c_kts : list (N * ktype);
                  c_packed : bool; c_unp : list (list N * uobs) }.
 
 (* randomness names outside the harness's key names (ephemeral keys are key names too) *)
@@ -47,11 +49,18 @@ Fixpoint refs_resolve (d : directory) (rrs : list ref) (ks : list N) : bool :=
   | _, _ => false
   end.
 
+Fixpoint ktf_of (dflt : ktype) (l : list (N * ktype)) (k : N) : ktype :=
+  match l with [] => dflt | (k', t) :: r => if k =? k' then t else ktf_of dflt r k end.
+
 Definition check_case (c : case) : bool :=
   match c_refs c with Some (d, _, rrs) => refs_resolve d rrs (c_rcpts c) | None => true end &&
   match (match c_refs c with
          | Some (d, sr, rrs) => pack_msg d (c_cfg c) (c_spar c) (c_payload c) sr rrs rnd0
-         | None => pack (c_cfg c) (c_spar c) (c_payload c) (c_sender c) (c_rcpts c) rnd0
+         | None => match c_kts c with
+                   | [] => pack (c_cfg c) (c_spar c) (c_payload c) (c_sender c) (c_rcpts c) rnd0
+                   | kts => pack_mixed (ktf_of (kt_of (c_cfg c)) kts) (c_cfg c) (c_spar c) (c_payload c) (c_sender c)
+                                       (c_rcpts c) rnd0
+                   end
          end) with
   | Ok w =>
       c_packed c &&
